@@ -114,7 +114,7 @@ Section MarlinLC.
   Definition mcheck_combinations (vk : MVKey) (lcs : list lcomb) (cs : list LComm) (qs : list query)
              (ev : evals) (pfs : list Proof) (chal vtape : list F) : res (bool * list F * nat) :=
     do r <- lc_verifier_all (comm_map cs) lcs (evals_map ev);
-    mbatch_check vk (fst r) qs (snd r) pfs chal vtape.
+    mbatch_check_m vk (fst r) qs (snd r) pfs chal vtape.      (* the adjusted BTreeMap is handed over as it is *)
 
   (* ---------------- trait defaults (lib.rs) ---------------- *)
   Definition lcs_map (lcs : list lcomb) : list (N * lc) := of_list N.compare lcs.
